@@ -15,3 +15,4 @@ import FhVerif.Props.C13
 import FhVerif.Props.C25
 import FhVerif.Props.C19
 import FhVerif.Props.C10
+import FhVerif.Props.C09
